@@ -47,7 +47,7 @@ deriving Repr, DecidableEq, Inhabited
 structure Param where
   name : String
   ty : Ty
-deriving Repr, Inhabited
+deriving Repr, DecidableEq, Inhabited
 
 /-- struct name ↦ members.  Callables are struct types too (their out params). -/
 abbrev StructTable := List (String × List Param)
